@@ -302,6 +302,12 @@ func prepareProcess() string {
 			"(defvar c07-symbols::bb 2)",
 			"(defclass c07-slots-class () ((sx :initform 1)))",
 			"(defclass c07-generic-class () ())",
+			// round 8: the user-defined condition classes of the error-class family; the output of time and warn
+			// goes to string streams
+			"(define-condition c07-user-error (error) ((x :initarg :x)))",
+			"(define-condition c07-user-arith (arithmetic-error) ())",
+			"(setq *trace-output* (make-string-output-stream))",
+			"(setq *error-output* (make-string-output-stream))",
 		} {
 			if _, err := lisp.Eval(src); err != nil {
 				envProblem = src + ": " + err.String()
